@@ -77,6 +77,25 @@ func (b *WriteBuffer) ShouldFlush(now time.Time) bool {
 	return false
 }
 
+// Prepend puts batches back at the head of the buffer, ahead of anything
+// appended since they were drained. It is used when a flush fails after Drain:
+// the batches keep their assigned offsets and are retried by the next flush.
+func (b *WriteBuffer) Prepend(batches []RecordBatch) {
+	if len(batches) == 0 {
+		return
+	}
+	b.mu.Lock()
+	defer b.mu.Unlock()
+	merged := make([]RecordBatch, 0, len(batches)+len(b.batches))
+	merged = append(merged, batches...)
+	merged = append(merged, b.batches...)
+	b.batches = merged
+	for _, batch := range batches {
+		b.sizeBytes += len(batch.Bytes)
+		b.messageCount += int(batch.MessageCount)
+	}
+}
+
 // Drain returns all buffered batches and resets counters.
 func (b *WriteBuffer) Drain() []RecordBatch {
 	b.mu.Lock()
